@@ -41,7 +41,10 @@ CHECKS["C05"] = {
     "level": "proof",
     "text": "Kernel-checked theorems over every configuration and every event list (all learners, goals, completion orders, "
             "cancellation points): legal tells, in-flight bound and refill, clean exit. Real Blocking/Async runners (executor and "
-            "coroutine functions) are driven by seeded and exhaustive-small schedules and compared with the model call by call.",
+            "coroutine functions) are driven by seeded and exhaustive-small schedules and compared with the model call by call. Search also on "
+            "real runtimes, deterministic: AsyncRunner with coroutine functions on a real event loop (nothing it started still runs when it stops; a "
+            "cancellation that coincides with a completion stops it) and with a real ThreadPoolExecutor that has fewer workers than ntasks (no "
+            "queued evaluation starts after the learner was told to discard its unfinished points).",
     "design_ref": "DESIGN.md section 6 C05", "note": _RUNNER_NOTE, "technique": T,
 }
 CHECKS["C06"] = {
@@ -74,7 +77,8 @@ CHECKS["C16"] = {
             "shipped loss grows with the scale, outside this property). For losses that do not grow with the output scale and do not depend on the "
             "scale on constant values (ScaleMonotone, FlatScaleFree: uniform and every default-loss shape g(dx, |dy|/scale)) the live loop visits "
             "every key and the stored losses ARE exact after every history of in-bounds tells (c16l_values_exact; one remaining hypothesis FlatHist "
-            "- scale 0 implies all means equal - is decidable per history and discharged in the examples, listed as partial). Same "
+            "- scale 0 implies all means equal - is now PROVED as an invariant, c16l_values_exact', for mappings of tell_many_at_point with distinct "
+            "seeds, which a Python dict always has; triangle and curvature loss shapes are covered too). Same "
             "definitions run at Float in lock-step with the real learners (full model: bit for bit incl. both loss tables, "
             "rescaled_error in container order, ask points/improvements/branch); statistics, rescaled errors and the ask rule "
             "re-derived on the real objects. One recorded finding (literal 'goes to an abscissa with fewer than min_samples' reading).",
